@@ -18,7 +18,7 @@ import (
 // E1: the real Diamond.Commit with the vmetadata Gets of the split index files gated; the DFS grants them in every
 // order (all arrival permutations), for every assignment of contents to (split, path), all four modes.
 
-const c11L = 64
+const c11L = 1 << 20 // leaf size is irrelevant here; a large one keeps cafs.New cheap (its free list is sized by cache/leaf)
 
 var c11contents = map[string][]byte{
 	"h1": []byte("content-one"),
